@@ -34,7 +34,8 @@ CONFIG = {
         "mime.ParseMediaType are parameters of the model (their results are computed by the harness with the std-lib and sent along)",
         "encoding/json of the fields struct (string escaping, RawJSON compaction) and CanonicalJSON are modelled by VModel.Json "
         "(parse / encodeCanon / canonical, C01); contents with duplicate keys or lone surrogate escapes are refused by the gate of SignJSON / "
-        "VerifyJSON (model: contentStrict in `sign` and in the key ring's check `gatedCheck`) — no longer skipped",
+        "VerifyJSON (model: contentSignStrict in `sign` — SignJSON's gate has no UTF-8 clause — and contentStrict in the key ring's check "
+        "`gatedCheck`) — no longer skipped",
         "crypto/ed25519 and base64: abstract `sigOK`; in the driver '$SIG' is accepted exactly for the signing key and a payload with the "
         "same canonical JSON as the signed object (the toy instance of IdealSig)",
     ],
